@@ -319,7 +319,11 @@ impl<const TY: u8> Actor for SA<TY>
 {
     async fn started(&mut self, ctx: &mut Context<Self>) -> DynResult<()> {
         let a = self.aid;
-        exec::bind_ctx(verif::ctx_id(ctx), a);
+        let same = exec::bind_ctx_checked(verif::ctx_id(ctx), a);
+        if world(|w| w.started_count.get(&a).copied().unwrap_or(0)) > 0 {
+            // a later incarnation: the context it is started with must be the one every handle points to
+            e(&[ev::IDENTITY as usize, a, same as usize]);
+        }
         let script = world(|w| Arc::new(w.specs[&a].started.clone()));
         let g = HGuard::callback(a, 0);
         match self.run(ctx, &script).await {
